@@ -43,6 +43,16 @@ func main() {
 		}
 		var space string
 		_ = json.Unmarshal(doc["space"], &space)
+		if space == "concurrent-stage" {
+			// found by the concurrent stage, which runs in the instrumented build
+			cmd := exec.Command("./c18.sh", "conc-replay", os.Args[2])
+			cmd.Dir = rep.Root
+			cmd.Stdout, cmd.Stderr = os.Stdout, os.Stderr
+			if err := cmd.Run(); err != nil {
+				os.Exit(1)
+			}
+			return
+		}
 		if space == "write-monitor" {
 			// found by the write-monitor stage, which runs in the instrumented build
 			cmd := exec.Command("./c18.sh", "watch-replay", os.Args[2])
